@@ -7,18 +7,25 @@ are run, through the fake bus, against the frame-level IEC 62386-103 control-dev
 
 Case kinds (all JSON):
   input        {"res", "value", "pass_res", "filler", "dev", "inst", "as_int", "next", "fault"}
-  setfilter    {"enum", "bits", "value", "stale", "mask", "dev", "inst", "as_int", "fault"}
+  setfilter    {"enum", "bits", "value", "stale", "mask", "dev", "inst", "as_int", "fault"[, "force", "keeps", "prev"]}
+               the unit implements only the bits "mask", keeps the events "force" enabled whatever is written, or
+               ("keeps") does not take the new filter over at all; "prev" is the filter it held before (default: the
+               complement of the request)
   queryfilter  {"enum", "bits", "unit", "via_module", "dev", "inst", "as_int", "fault"}
   scheme       {"scheme", "as_enum", "initial", "refuse", "dev", "inst", "as_int", "fault"}
                setfilter / queryfilter with "names": [member names of a library enum]: the filter is composed BY NAME
                (Filter.short_press | Filter.long_press_stop) and "value" / "unit" hold the standard's bits for them
   enumtable    {"enum"}: the member names and values of a library filter enum against the standard's table
   discover     {"devices": [{"short", "status", "inst": [[enabled, type], ...]}], "selector", "fault",
-                "before": None or {"how": "initial"|"add_type"|"scan", "devices", "selector", "clear": bool}}
+                "before": None or {"how": "fresh"|"initial"|"add_type"|"scan", "devices", "selector", "clear": bool,
+                                   "abandon": None or [[how, n], ...]}}
                 selector = ["default"] | ["int", N] | ["pair", lo, hi] | [form, [addresses]] with form one of
                 list / tuple / gen / iter / map / filter / range (contiguous) - the iterables a caller may pass;
                 "before": the SAME mapper object was used before this scan - filled through initial= / add_type() /
-                an earlier scan of another population - and (normally) clear()ed
+                an earlier scan of another population -, then had scans of that population started on it that were
+                not run to their end ("abandon": after n commands the driver closed the sequence ["close", n], threw
+                an exception into it ["throw", n] or just dropped it ["drop", n]; or the address list held an invalid
+                address at position n ["bad-address", n]), and was (normally) clear()ed
 "fault" = None or [k, "silence"|"garble"]: the answer to the k-th query of the sequence (modulo the
 number of queries of the fault-free run) is suppressed / turned into a framing error whose data
 bits differ from the true answer.
@@ -41,7 +48,8 @@ RULE = ("input value: every (resolution, value) up to 12 bits (quick) / 16 bits 
         "tables against the standard and every combination of their members composed by name, set and queried; schemes: all (initial, "
         "requested) pairs, refused and invalid ones; discovery: fixed and Hypothesis-drawn buses of 0..64 devices, the "
         "addresses given as default / int / (start, end) / list / tuple / range / iterator / generator / map / filter, the "
-        "mapper fresh or used before (filled through initial= / add_type() / a scan of another population, then clear()ed "
+        "mapper fresh or used before (filled through initial= / add_type() / a scan of another population, earlier scans "
+        "on it abandoned after n commands - closed, exception thrown in, dropped, invalid address -, then clear()ed "
         "or not) and read back through .mapping, get_type() and event decoding; every "
         "sequence also with silence / framing error at each query.  Enumerated cases are distinct by construction, drawn "
         "ones by fingerprint.  Non-trivial = resolution > 8, or filter wider than 8 bits, or a population with an "
@@ -62,8 +70,13 @@ ASSUMPTIONS = [
     "(8, 16 or 24 bits); the filter type handed to the library matches that width (plain ints: 8 bits)",
     "the unused low bits of the last input-value byte are arbitrary (IEC 62386-103 9.7.2 makes them a repetition of the "
     "value; the model also plays other fillers to show that they are discarded)",
-    "a unit may refuse an event scheme or implement only some filter bits; the sequence's return value is then compared "
-    "with what the unit holds, not with the request",
+    "a unit may refuse an event scheme, implement only some filter bits, keep some events permanently enabled or not take "
+    "a new filter over at all; the sequence's return value is then compared with what the unit holds (all of it, also bits "
+    "that were not requested), not with the request",
+    "a scan that was started on a mapper and not run to its end (the driver closed or dropped the sequence after a "
+    "transport error / cancellation, or the scan itself raised on an invalid address) says nothing about later scans on "
+    "that mapper: they are judged like any other scan; entries the abandoned scan may have recorded count as 'earlier "
+    "use' of the mapper",
     "invalid event schemes (outside 0..4): raising ValueError/TypeError or sending it and reporting the unit's unchanged "
     "scheme are both accepted; only a changed scheme in the unit or a report that differs from the unit is a violation",
     "SetEventSchemes returns the unit's answer as a response object; under a fault an object holding no frame or a "
@@ -291,11 +304,15 @@ def build_setfilter(case):
     stale = tuple(case.get("stale", (0, 0, 0)))
     mask = case.get("mask")
     wmask = (1 << width) - 1
+    force = (case.get("force") or 0) & wmask
+    keeps = bool(case.get("keeps"))
+    prev = (~value if case.get("prev") is None else case["prev"]) & wmask
     itype = LIB_TYPES.get(case["enum"], 9)
 
     def make_units():
         insts = [InstanceModel(type=2, filter_width=24, filter=0x010203) for _ in range(i)]
-        insts.append(InstanceModel(type=itype, filter_width=width, filter=~value & wmask, filter_mask=mask))
+        insts.append(InstanceModel(type=itype, filter_width=width, filter=prev, filter_mask=mask, filter_force=force,
+                                   ignore_set_filter=keeps))
         if i < 31:
             insts.append(InstanceModel(type=itype, filter_width=width, filter=0x5A))
         other = DeviceModel(short=(a + 1) % 64, dtr=stale,
@@ -315,10 +332,13 @@ def build_setfilter(case):
 
     def judge(units, bus, out, finfo):
         unit = units[0].instances[i]
-        exp = value & wmask if mask is None else value & wmask & mask
-        where = "SetEventFilters(%s 0x%06X) on a %d-bit-filter instance%s, DTR0/1/2 holding %s beforehand%s" % (
+        exp = prev if keeps else ((value & wmask if mask is None else value & wmask & mask) | force)
+        where = "SetEventFilters(%s 0x%06X) on a %d-bit-filter instance%s%s%s, DTR0/1/2 holding %s beforehand%s" % (
             "int" if cls is int else "%s[%d flags]" % (case["enum"], len(positions)), value, width,
-            "" if mask is None else " implementing bits 0x%06X" % mask, "%02X/%02X/%02X" % stale, fault_text(finfo))
+            "" if mask is None else " implementing bits 0x%06X" % mask,
+            "" if not force else " that keeps bits 0x%06X enabled" % force,
+            "" if not keeps else " that does not take the filter over (holds 0x%06X)" % prev,
+            "%02X/%02X/%02X" % stale, fault_text(finfo))
         if out[0] != "ret":
             return exc_violation("C13:set-filter", L, out, finfo, where)
         r = out[1]
@@ -520,19 +540,84 @@ def expected_mapping(devices, addrs):
     return exp
 
 
+class Abandoned(Exception):
+    """What the driver of an earlier scan raised into the sequence (lost connection, cancellation)."""
+
+
+INVALID_ADDRESSES = [64, -1, 255, 1000]
+ABANDON_KINDS = ["close", "throw", "drop", "bad-address"]
+
+
+def earlier_bus(before, sel):
+    units = [DeviceModel(short=d["short"], force_status=d["status"], name="e%d" % k,
+                         instances=[InstanceModel(type=t, enabled=en) for (en, t) in d["inst"]])
+             for k, d in enumerate(before["devices"])]
+    return Bus(units, max_commands=400 + sum(2 + 2 * len(d["inst"]) for d in before["devices"]) * (
+        1 + (len(sel[1]) if sel[0] in ITERABLE_FORMS else 0)))
+
+
+def abandoned_scan(m, before, spec):
+    """An autodiscover() on mapper m over the earlier population that is not run to its end.  [how, n]: after n
+    commands were put on the bus (the answer to the n-th never reaches the sequence) the driver closes the sequence
+    ("close" - what every driver's run_sequence does when sending fails or its task is cancelled), throws its exception
+    into it ("throw"), or just lets go of it ("drop"); "bad-address": the caller's address list holds an invalid
+    address at position n, on which the scan itself raises.  n = 0: the sequence was created and never started.  A
+    scan that is over before n commands simply was a complete one."""
+    from dali import command
+    how, n = spec
+    sel = before.get("selector", ["default"])
+    if how == "bad-address":
+        addrs = sorted(selected_addresses(sel)[0])
+        k = n % (len(addrs) + 1)
+        seq = m.autodiscover(addrs[:k] + [INVALID_ADDRESSES[n % len(INVALID_ADDRESSES)]] + addrs[k:])
+        bus = earlier_bus(before, ["list", addrs + [0]])
+        n = bus.max_commands
+    else:
+        seq = m.autodiscover() if sel[0] == "default" else m.autodiscover(selector_arg(sel))
+        bus = earlier_bus(before, sel)
+    resp, sent = None, 0
+    try:
+        while sent < n:
+            item = seq.send(resp)
+            resp = None
+            if isinstance(item, command.Command):
+                resp = bus.transact(item)
+                sent += 1
+    except StopIteration:
+        return
+    except Exception as e:  # noqa - the earlier scan is not what this case judges; it only has to be over
+        if library_frame(e.__traceback__) is None and not isinstance(e, NonTermination):
+            raise
+        return
+    if how == "close":
+        seq.close()
+    elif how == "throw":
+        try:
+            seq.throw(Abandoned("the driver lost its connection"))
+        except (Abandoned, StopIteration):
+            pass
+    del seq
+
+
 def used_mapper(L, before):
-    """A mapper object that has been in use: filled through initial=, add_type() or a scan of an earlier population."""
+    """A mapper object that has been in use: filled through initial=, add_type() or a scan of an earlier population;
+    scans started on it and abandoned."""
+    m = filled_mapper(L, before)
+    for spec in before.get("abandon") or ():
+        abandoned_scan(m, before, spec)
+        len(m.mapping)
+    return m
+
+
+def filled_mapper(L, before):
     how = before["how"]
     sel = before.get("selector", ["default"])
     Mapper = L["helpers"].DeviceInstanceTypeMapper
-    if how == "scan":
+    if how == "fresh":
         m = Mapper()
-        units = [DeviceModel(short=d["short"], force_status=d["status"], name="e%d" % k,
-                             instances=[InstanceModel(type=t, enabled=en) for (en, t) in d["inst"]])
-                 for k, d in enumerate(before["devices"])]
-        bus = Bus(units, max_commands=400 + sum(2 + 2 * len(d["inst"]) for d in before["devices"]) * (
-            1 + (len(sel[1]) if sel[0] in ITERABLE_FORMS else 0)))
-        bus.run(m.autodiscover() if sel[0] == "default" else m.autodiscover(selector_arg(sel)))
+    elif how == "scan":
+        m = Mapper()
+        earlier_bus(before, sel).run(m.autodiscover() if sel[0] == "default" else m.autodiscover(selector_arg(sel)))
     else:
         first = expected_mapping(before["devices"], selected_addresses(sel)[0])
         if how == "initial":
@@ -591,8 +676,9 @@ def build_discover(case):
     first_hi = {}
     if before:
         # what the mapper may hold from its earlier use (read from the case, not from the library)
-        first_hi = expected_mapping(before["devices"], selected_addresses(before.get("selector", ["default"]))[
-            1 if before["how"] == "scan" else 0])
+        if before["how"] != "fresh" or before.get("abandon"):
+            first_hi = expected_mapping(before["devices"], selected_addresses(before.get("selector", ["default"]))[
+                1 if before["how"] == "scan" or before.get("abandon") else 0])
 
     def make_units():
         return [DeviceModel(short=d["short"], force_status=d["status"], name="d%d" % k,
@@ -622,8 +708,11 @@ def build_discover(case):
         where = "autodiscover(%s) on %d devices%s%s" % (
             "" if sel[0] == "default" else "%s %r" % (sel[0], sel[1:] if sel[0] in ("int", "pair") else sel[1]),
             len(devices), fault_text(finfo),
-            "" if not before else " with a mapper that was filled before (%s, %d entries) and %s" % (
-                before["how"], len(first_hi), "clear()ed" if cleared else "not cleared"))
+            "" if not before else " with a mapper that was filled before (%s, %d entries)%s and %s" % (
+                before["how"], len(first_hi),
+                "" if not before.get("abandon") else ", on which earlier scans were abandoned (%s)" % ", ".join(
+                    "%s after %d commands" % (h, k) if h != "bad-address" else "invalid address at position %d" % k
+                    for h, k in before["abandon"]), "clear()ed" if cleared else "not cleared"))
         if out[0] != "ret":
             return exc_violation("C13:discover", L, out, finfo, where)
         suffix = ":under-fault" if finfo else ""
@@ -924,6 +1013,8 @@ def classify(case):
         labs += ["discover:" + x for x in population_features(case)]
         if case.get("before"):
             labs.append("discover:mapper-used-before:%s:%s" % (case["before"]["how"], "cleared" if case["before"].get("clear", True) else "kept"))
+            for h, k in case["before"].get("abandon") or ():
+                labs.append("discover:earlier-scan-abandoned:%s:%s" % (h, "not-started" if k == 0 and h != "bad-address" else "started"))
     if case.get("fault"):
         labs.append("%s:fault-%s" % (k, case["fault"][1]))
     return labs
@@ -977,6 +1068,15 @@ def filter_st(draw):
         case["stale"] = [draw(st.sampled_from([0, 0xFF, lo, lo ^ 0xFF])), draw(st.sampled_from([0, 0xFF, md, md ^ 0xFF, 0x5A])),
                          draw(st.sampled_from([0, 0xFF, hi, hi, hi ^ 0xFF, 0xC3]))]
         case["mask"] = draw(st.one_of(st.none(), st.none(), st.integers(0, (1 << width) - 1)))
+        # what the unit reports may differ from the request in both directions
+        beh = draw(st.one_of(st.none(), st.tuples(st.sampled_from(["force", "force", "force-bit", "keeps", "prev"]),
+                                                  st.integers(0, (1 << width) - 1))))
+        if beh is not None:
+            if beh[0] in ("force", "force-bit"):
+                case["force"] = beh[1] if beh[0] == "force" else 1 << positions[beh[1] % len(positions)]
+            else:
+                case["keeps"] = beh[0] == "keeps"
+                case["prev"] = beh[1]
     else:
         case["kind"] = "queryfilter"
         case["unit"] = draw(st.one_of(st.integers(0, (1 << width) - 1), st.just(value)))
@@ -1053,9 +1153,14 @@ def population_st(draw):
         if draw(st.booleans()):
             earlier.append({"short": draw(st.integers(0, 63)), "status": 0, "inst": [[True, draw(st.integers(0, 31))]]})
         shorts = [e["short"] for e in earlier if e["short"] is not None]
-        case["before"] = {"how": draw(st.sampled_from(["initial", "add_type", "scan"])), "devices": earlier,
+        case["before"] = {"how": draw(st.sampled_from(["initial", "add_type", "scan", "fresh"])), "devices": earlier,
                           "selector": ["list", shorts] if shorts and draw(st.booleans()) else ["default"],
                           "clear": draw(st.sampled_from([True, True, True, False]))}
+        if draw(st.booleans()):
+            # scans that were started on this mapper and never finished
+            case["before"]["abandon"] = draw(st.lists(
+                st.tuples(st.sampled_from(ABANDON_KINDS), st.one_of(st.integers(0, 6), st.integers(0, 80))).map(list),
+                min_size=1, max_size=2))
     return case
 
 
@@ -1399,6 +1504,15 @@ def _shard(arg):
                 for mask in (None, 0xB6):
                     run({"kind": "setfilter", "enum": name, "value": value, "stale": stale, "mask": mask, "dev": (value + si) % 64,
                          "inst": value % 5, "as_int": bool((value + si) & 1), "fault": None})
+                # the unit reports more than / something else than was requested: events it keeps enabled, with or
+                # without unimplemented ones; a unit that does not take the filter over and reports its previous one
+                f1 = 1 << positions[(value + si) % len(positions)]
+                for mask, force, keeps, prev in ((None, f1, False, None), (0xB6, 0x41 if si else f1, False, None),
+                                                 (None, 0, True, (value * 7 + 0x35 + si) & 0xFF)):
+                    run({"kind": "setfilter", "enum": name, "value": value, "stale": stale, "mask": mask, "force": force,
+                         "keeps": keeps, "prev": prev, "dev": (value + si) % 64, "inst": value % 5,
+                         "as_int": bool((value + si) & 1), "fault": None}, label="setfilter:%s:8-bit:unit-reports-%s" % (
+                             name, "previous-filter" if keeps else "forced-bits"))
         res.sample({"kind": "setfilter", "enum": name, "value": 0x81 if name in ("int", "pushbutton") else 1,
                     "stale": STALES[2], "mask": None}, cls="set filter (8-bit)")
     elif kind == "setfilter-gen":
@@ -1415,6 +1529,14 @@ def _shard(arg):
                 for mask in ((None, 0x00F0F3 | (1 << (w - 1))) if with_mask else (None,)):
                     run({"kind": "setfilter", "enum": "gen", "bits": bits, "value": value, "stale": stale, "mask": mask,
                          "dev": value % 64, "inst": len(bits), "as_int": bool(value & 2), "fault": None})
+            top = (1 << w) - 1
+            for vi, (mask, force, keeps, prev) in enumerate(((None, 0x810204 & top | (1 << (w - 1)), False, None),
+                                                             (0xFFF0F3 & top, 1 << bits[len(bits) // 2], False, value),
+                                                             (None, 0, True, (value ^ 0x5A5A5A) & top), (None, 0, True, 0x030201 & top))):
+                run({"kind": "setfilter", "enum": "gen", "bits": bits, "value": value, "stale": STALES[(vi + len(bits)) % 3],
+                     "mask": mask, "force": force, "keeps": keeps, "prev": prev, "dev": value % 64, "inst": len(bits),
+                     "as_int": bool(value & 2), "fault": None}, label="setfilter:gen:%d-bit:unit-reports-%s" % (
+                         w, "previous-filter" if keeps else "forced-bits"))
         res.sample({"kind": "setfilter", "enum": "gen", "bits": bits, "value": allv & 0xAAAAAA, "stale": STALES[2], "mask": None},
                    cls="set filter (%d-bit generated enum)" % w)
     elif kind == "filter-faults":
@@ -1510,6 +1632,28 @@ def _shard(arg):
                      "before": {"how": how, "devices": POP_B, "selector": ["default"], "clear": True}})
         res.sample({"kind": "discover", "devices": POP_A, "selector": ["default"], "fault": None,
                     "before": {"how": how, "devices": POP_B, "selector": ["default"], "clear": True}}, cls="mapper re-used after clear()")
+    elif kind == "discover-abandoned":
+        # ONE mapper object over time: a scan started on it was not run to its end (the driver closed / dropped the
+        # sequence or threw into it after n commands, the address list was invalid from position n), perhaps clear()ed,
+        # then a complete scan that is judged like any other
+        _, hi = arg
+        how = ["fresh", "initial", "add_type", "scan"][hi]
+        p1, p3 = FIXED_POPULATIONS[1], FIXED_POPULATIONS[3]
+        combos = [(POP_B, POP_A, ["default"]), (POP_A, POP_B, ["list", [63, 12, 3, 7, 8, 9, 10, 0]]), (p1, p3, ["int", 5]),
+                  (p3, p1, ["pair", 0, 7]), (POP_A, POP_A, ["iter", [63, 12, 7]]), ([], POP_B, ["gen", [7, 63]])]
+        for ci, (earlier, pop, sel) in enumerate(combos):
+            for ak in ABANDON_KINDS:
+                for n in (0, 1, 2, 3, 6, 11, 400):
+                    for clear in (True, False):
+                        c = {"kind": "discover", "devices": pop, "selector": sel, "fault": None,
+                             "before": {"how": how, "devices": earlier, "selector": [["default"], ["gen", [63, 7, 3, 0]]][(ci + n) % 2],
+                                        "clear": clear, "abandon": [[ak, n]] if n != 11 else [[ak, 2], [ABANDON_KINDS[ci % 4], n]]}}
+                        run(c)
+        with_faults({"kind": "discover", "devices": POP_A, "selector": ["map", [63, 12, 7]], "fault": None,
+                     "before": {"how": how, "devices": POP_B, "selector": ["default"], "clear": True, "abandon": [["close", 5]]}})
+        res.sample({"kind": "discover", "devices": POP_A, "selector": ["default"], "fault": None,
+                    "before": {"how": how, "devices": POP_B, "selector": ["default"], "clear": True, "abandon": [["close", 5]]}},
+                   cls="mapper on which an earlier scan was abandoned")
     elif kind == "hyp":
         _, seed, n = arg
 
@@ -1566,6 +1710,8 @@ def run(ctx):
         shards.append(("discover-fixed", pi))
     for hi in range(3):
         shards.append(("discover-reuse", hi))
+    for hi in range(4):
+        shards.append(("discover-abandoned", hi))
     for k in range(16):
         shards.append(("hyp", s * 1000 + k, 500 if q else 6000))
         shards.append(("hyp-discover", s * 1000 + 500 + k, 120 if q else 2000))
